@@ -177,6 +177,11 @@ def build():
                ensures=["(result[0] is None) == (TYPES_lookup(class_name) is None or not is_node_class(TYPES_lookup(class_name)))",
                         "implies(result[0] is not None, result[0] == TYPES_lookup(class_name))"],
                note="a class exactly when the name is registered in TYPES and names a node class; otherwise (None, message)"))
+    BADCLS = "(TYPES_lookup(args[0]) is None or not is_node_class(TYPES_lookup(args[0])))"
+    world.exc_parents["ASTXpathDefinitionError"] = "Exception"
+    A(Contract("pyoak.match.xpath:XPathTransformer.class_spec", params={"self": "py:transformer", "args": "Seq[str]"}, returns="ClassObj", props=["C17", "C07"],
+               requires=["len(args) > 0"], raises=[("ASTXpathDefinitionError", BADCLS)], ensures=["result == TYPES_lookup(args[0])"],
+               note="the class a step names: exactly the registered node class of that name; an unknown or non-node name is the xpath definition error"))
     A(Contract(f"{PM_}:PatternDefInterpreter._check_unique_and_get_capture", params={"self": "Interpreter", "child": "PNode"}, returns="Opt[str]", props=P, globals=G,
                modifies=["SEEN"],
                raises=[("ASTPatternDefinitionError", "is_capture(child) and len(pn_children(child)) > 0 and in_set(SEEN, pn_text(pn_children(child)[0]))")],
